@@ -352,6 +352,36 @@ fn judge_builder(bb: &BoardBuilder, origin: &str, must_accept: bool, rep: &mut R
     }
 }
 
+/// `judge_builder` for the state as given and, half of the time, for the same content reached along another
+/// construction path and converted through the by-value / `&mut` impls: verdict and board must not depend on the path
+fn judge_builder_paths(bb: &BoardBuilder, origin: &str, must_accept: bool, rng: &mut Rng, rep: &mut Report) {
+    judge_builder(bb, origin, must_accept, rep);
+    if rng.chance(1, 2) {
+        let twin = repath_builder(bb, rng);
+        rep.count("ev_builder_repathed");
+        judge_builder(&twin, &format!("{}-repathed", origin), must_accept, rep);
+        let r0 = catch_unwind(AssertUnwindSafe(|| Board::try_from(bb)));
+        let r1 = catch_unwind(AssertUnwindSafe(|| {
+            if rng.chance(1, 2) {
+                Board::try_from(twin)
+            } else {
+                let mut t = twin;
+                Board::try_from(&mut t)
+            }
+        }));
+        if let (Ok(a), Ok(b)) = (r0, r1) {
+            let same = match (&a, &b) {
+                (Ok(x), Ok(y)) => x == y && x.get_hash() == y.get_hash() && x.en_passant() == y.en_passant() && x.castle_rights(Color::White) == y.castle_rights(Color::White) && x.castle_rights(Color::Black) == y.castle_rights(Color::Black),
+                (Err(_), Err(_)) => true,
+                _ => false,
+            };
+            if !same {
+                rep.violation("C07/builder/verdict-depends-on-construction-path", format!("builder state {} ({}): {:?} as given, {:?} for the same content built another way", bb, origin, a.as_ref().map(|x| format!("{}", x)).map_err(|_| "rejected"), b.as_ref().map(|x| format!("{}", x)).map_err(|_| "rejected")));
+            }
+        }
+    }
+}
+
 const FEN_ALPHA: &[&str] = &["p", "n", "b", "r", "q", "k", "P", "N", "B", "R", "Q", "K", "1", "2", "3", "4", "5", "6", "7", "8", "/", "/", " ", "w", "b", "-", "K", "Q", "k", "q", "a", "e", "h", "3", "6", "0", "9"];
 
 fn mutate(rng: &mut Rng, s: &str) -> String {
@@ -703,12 +733,12 @@ pub fn run_c07(ctx: &Ctx, rep: &mut Report) {
         for _ in 0..(if miri { 1 } else { 15 }) {
             let bb = crowded_builder(rng);
             rep.count("ev_crowded_submitted");
-            judge_builder(&bb, "crowded", false, rep);
+            judge_builder_paths(&bb, "crowded", false, rng, rep);
             // (one such board per run suffices in the interpreter: a 50-man move list costs it minutes)
             if !miri || ctx.shard == 0 {
                 let bb = lattice_builder(rng);
                 rep.count("ev_lattice_submitted");
-                judge_builder(&bb, "lattice", false, rep);
+                judge_builder_paths(&bb, "lattice", false, rng, rep);
             }
         }
     });
@@ -728,7 +758,7 @@ pub fn run_c07(ctx: &Ctx, rep: &mut Report) {
         // (3) every valid position must be accepted, through text and through the builder
         rep.count("ev_valid_submitted");
         judge_text(&valid_fen, true, rep);
-        judge_builder(&builder_from_model(&base), "valid-model-position", true, rep);
+        judge_builder_paths(&builder_from_model(&base), "valid-model-position", true, rng, rep);
         judge_builder(&builder_from_model_shuffled(&base, rng), "valid-model-position-setters-shuffled", true, rep);
         if gid < 3 {
             rep.sample(format!("valid {:?} and mutants such as {:?}", valid_fen, mutate(rng, &valid_fen)));
@@ -784,16 +814,53 @@ pub fn run_c07(ctx: &Ctx, rep: &mut Report) {
                 if gid == 0 && i == 0 {
                     rep.sample(format!("crowded builder state: {}", bb));
                 }
-                judge_builder(&bb, "crowded", false, rep);
+                judge_builder_paths(&bb, "crowded", false, rng, rep);
             } else if i % 8 == 5 {
                 let bb = home_square_confusion(rng);
                 rep.count("ev_home_confusion_submitted");
-                judge_builder(&bb, "home-square-confusion", false, rep);
+                judge_builder_paths(&bb, "home-square-confusion", false, rng, rep);
             } else if i % 8 == 1 {
                 let bb = full_board_builder(rng);
                 rep.count("ev_full_board_submitted");
-                judge_builder(&bb, "full-board", false, rep);
-            } else if i % 4 == 1 {
+                judge_builder_paths(&bb, "full-board", false, rng, rep);
+            } else if i % 8 == 3 {
+                // an edited copy of a validated board: Board -> BoardBuilder, then a few edits (mostly through
+                // IndexMut only, which no setter sees), then back.  What the builder holds decides, not where it came from.
+                let p = if rng.chance(1, 2) { synth::synth(rng, Density::Medium) } else { RPos::startpos() };
+                if let Ok(b0) = Board::from_str(&p.fen()) {
+                    let mut bb: BoardBuilder = if rng.chance(1, 2) { (&b0).into() } else { b0.into() };
+                    let only_index = rng.chance(2, 3);
+                    for _ in 0..rng.range(1, 3) {
+                        let occupied: Vec<u8> = (0..64u8).filter(|s| p.sq[*s as usize] != 0).collect();
+                        let s = match rng.below(4) {
+                            0 => p.king_sq(rng.below(2) as u8).unwrap_or(0),
+                            1 => *rng.pick(&occupied),
+                            _ => rng.below(64) as u8,
+                        };
+                        let sq = Square::new(s);
+                        let val = match rng.below(5) {
+                            0 | 1 => None,
+                            2 => Some((Piece::King, if rng.chance(1, 2) { Color::White } else { Color::Black })),
+                            3 => Some((Piece::Pawn, if rng.chance(1, 2) { Color::White } else { Color::Black })),
+                            _ => Some((Piece::Queen, if rng.chance(1, 2) { Color::White } else { Color::Black })),
+                        };
+                        if only_index || rng.chance(1, 2) {
+                            bb[sq] = val;
+                        } else {
+                            match val {
+                                Some((pc, c)) => {
+                                    bb.piece(sq, pc, c);
+                                }
+                                None => {
+                                    bb.clear_square(sq);
+                                }
+                            }
+                        }
+                    }
+                    rep.count("ev_edited_copy_submitted");
+                    judge_builder_paths(&bb, "edited-copy-of-board", false, rng, rep);
+                }
+            } else if i % 8 == 2 {
                 // a valid position with one field perturbed
                 let mut p = synth::synth(rng, Density::Medium);
                 match rng.below(5) {
@@ -811,11 +878,11 @@ pub fn run_c07(ctx: &Ctx, rep: &mut Report) {
                     }
                 }
                 rep.count("ev_perturbed_submitted");
-                judge_builder(&builder_from_model(&p), "perturbed", false, rep);
+                judge_builder_paths(&builder_from_model(&p), "perturbed", false, rng, rep);
             } else {
                 let bb = arbitrary_builder(rng);
                 rep.count("ev_arbitrary_submitted");
-                judge_builder(&bb, "arbitrary", false, rep);
+                judge_builder_paths(&bb, "arbitrary", false, rng, rep);
             }
         }
     });
